@@ -260,7 +260,42 @@ def region_info(par):
             visit(parts[-1], False)
     privs = [p for p in privs if p and p not in ivs]
     has_crit = bool(find_all(par, {"OMPCriticalDirective"}, []))
-    return privs, sorted(stores), has_crit, sorted(ivs)
+    # every access (read or write) to a variable that is stored to somewhere in the region
+    written = {json.loads(w)[0] for w in stores}
+    accesses = set(stores)
+
+    def visit_acc(n, crit):
+        if not isinstance(n, dict):
+            return
+        k = n.get("kind")
+        if k == "OMPCriticalDirective":
+            crit = True
+        ch = inner(n)
+        if k in ("CXXOperatorCallExpr", "ArraySubscriptExpr", "CXXMemberCallExpr", "MemberExpr", "DeclRefExpr",
+                 "CXXDependentScopeMemberExpr"):
+            op = callee_name(n) if k == "CXXOperatorCallExpr" else None
+            if not (k == "CXXOperatorCallExpr" and op not in ("operator()", "operator[]")):
+                nm, did, form = root_and_form(n, decls)
+                if nm in written and did not in inner_ids:
+                    name = callee_name(n) if k == "CXXMemberCallExpr" else None
+                    if name in t_omp.APPEND_METHODS:
+                        form = ["append"]
+                    elif name in t_omp.MUTATING_METHODS:
+                        form = ["call:" + name]
+                    accesses.add(json.dumps([nm, crit, form]))
+                    # only the index arguments can contain further accesses
+                    args = ch[2:] if k == "CXXOperatorCallExpr" else ch[1:]
+                    for a in args:
+                        visit_acc(a, crit)
+                    return
+        for c in ch:
+            visit_acc(c, crit)
+
+    for fs in body_roots:
+        parts = inner(fs)
+        if parts:
+            visit_acc(parts[-1], False)
+    return privs, sorted(stores), has_crit, sorted(ivs), sorted(accesses)
 
 
 HEADERS_OF = [
@@ -313,7 +348,7 @@ def clang_regions(repo, fname, header, extra_defs=()):
                 continue
             for par in find_all(doc, {"OMPParallelDirective", "OMPParallelForDirective"}, [],
                                 stop=("OMPParallelDirective", "OMPParallelForDirective")):
-                privs, stores, has_crit, ivs = region_info(par)
+                privs, stores, has_crit, ivs, accesses = region_info(par)
                 unnamed = [c for c in inner(par) if c.get("kind") is None and find_all(c, {"DeclRefExpr"}, [])]
                 if unnamed:
                     if clause_priv is None:
@@ -323,7 +358,8 @@ def clang_regions(repo, fname, header, extra_defs=()):
                         clause_priv = private_clause_names(p2.stdout)
                     privs = [x for x in privs + clause_priv if x not in ivs]
                     stores = [w for w in stores if json.loads(w)[0] not in clause_priv]
-                regs.append((privs, stores, has_crit, ivs))
+                    accesses = [w for w in accesses if json.loads(w)[0] not in clause_priv]
+                regs.append((privs, stores, has_crit, ivs, accesses))
         return regs, None
     finally:
         shutil.rmtree(tmp, ignore_errors=True)
@@ -361,13 +397,20 @@ def compare(repo, tr=None):
             if len(cl) != len(regs):
                 out.append("%s: clang sees %d parallel region(s), the translator %d" % (tag, len(cl), len(regs)))
                 continue
-            for k, (r, (privs, stores, has_crit, ivs)) in enumerate(zip(regs, cl)):
+            for k, (r, (privs, stores, has_crit, ivs, accesses)) in enumerate(zip(regs, cl)):
                 tp = sorted(p["name"] for p in r["private"])
                 if sorted(set(privs)) != tp:
                     out.append("%s#%d: thread-private variables: clang %s, translator %s" % (tag, k + 1, sorted(set(privs)), tp))
                 tw = sorted(json.dumps(w) for w in r["write_forms"])
                 if tw != stores:
                     out.append("%s#%d: stores to shared variables: clang %s, translator %s" % (tag, k + 1, stores, tw))
+                ta = sorted(json.dumps(w) for w in r.get("access_forms", []))
+                # back_inserter(X) appears in the AST both as the append and as a plain mention of X
+                ca = [w for w in accesses if not (json.loads(w)[2] == ["whole"] and json.dumps(
+                    [json.loads(w)[0], json.loads(w)[1], ["append"]]) in accesses)]
+                if tw == stores and ta != sorted(ca):
+                    out.append("%s#%d: accesses (reads and writes) to the stored-to shared variables: clang %s, "
+                               "translator %s" % (tag, k + 1, sorted(ca), ta))
                 if has_crit != any(a["crit"] for a in r["shared"]):
                     out.append("%s#%d: critical section: clang %s, translator %s" % (
                         tag, k + 1, has_crit, any(a["crit"] for a in r["shared"])))
